@@ -23,7 +23,8 @@ KRegs6 == KRegsScaled \cup {KRegSI} \cup { [length |-> l, mass |-> "g", time |->
 ASSUME \A r \in KRegs108 \cup KRegsScaled : IsReg(r)
 
 Outs_one == {<<"uM", "h">>}
-Outs_three == {<<"uM", "h">>, <<"molcm3", "ms">>, <<"M", "s">>}
+Outs_three == {<<"uM", "h">>, <<"molcm3", "ms">>, <<"M", "s">>, <<"none", "min">>, <<"mM", "none">>}
+Outs_q == {<<"uM", "h">>, <<"none", "min">>, <<"mM", "none">>}
 Plans_two == {0, 2}
 Plans_all == {0, 1, 2, 3, 4}
 Sys_all == DOMAIN SysLib
